@@ -30,5 +30,9 @@ Definition judge_mem (args : list sx) (impl : sx) : bool :=
 
 Definition op_mem (args : list sx) : sx := SL [sym "bounded"].
 
+(* read_fault kind file p : a parser whose source delivers the first p < |file| bytes of a VALID file and then
+   fails with an I/O error (not end-of-file) must answer with an error - never a value, never a panic *)
 Definition dispatch_mem (op : bytes) (args : list sx) : option sx :=
-  if bytes_eqb op (s2b "mem") then Some (op_mem args) else None.
+  if bytes_eqb op (s2b "mem") then Some (op_mem args)
+  else if bytes_eqb op (s2b "read_fault") then Some (SL [sym "err"])
+  else None.
